@@ -211,6 +211,10 @@ class Monitors:
                 self.fail("mark-without-block-exit", step, f"consumer {c} ({p}) {where}: {m} task_done call(s)")
         if I.td_calls != I.exits:
             self.fail("marks-ne-block-exits", step, f"task_done calls={I.td_calls} block exits={I.exits}")
+        # -- every item put is in the queue or was handed to a block: nothing takes an item on the side
+        if I.puts != I.q.qsize() + len(I.took):
+            self.fail("item-taken-by-nobody", step,
+                      f"puts={I.puts}, in the queue {I.q.qsize()}, handed to blocks {len(I.took)}")
         # -- a consumer cancelled while waiting marks nothing and removes no item
         for c, p in enumerate(ph):
             before = self.prev_phase[c] if c < len(self.prev_phase) else "N"
